@@ -20,6 +20,9 @@ type nativeCase struct {
 	Vec     []uint64 `json:"vec"`
 	Tier    int      `json:"tier"`
 	Sched   []int    `json:"sched,omitempty"`
+	// Attempts > 1: a schedule-dependent counterexample; the case is re-run with schedule
+	// perturbation until it fails or the attempts are used up
+	Attempts int `json:"attempts,omitempty"`
 }
 
 type nativeResult struct {
@@ -52,6 +55,7 @@ type vCase struct {
 	Vec     []uint64 ` + "`json:\"vec\"`" + `
 	Tier    int      ` + "`json:\"tier\"`" + `
 	Sched   []int    ` + "`json:\"sched\"`" + `
+	Attempts int     ` + "`json:\"attempts\"`" + `
 }
 
 type vResult struct {
@@ -111,7 +115,13 @@ func TestVerifReplay(t *testing.T) {
 	defer out.Close()
 	enc := json.NewEncoder(out)
 	for _, c := range cases {
-		enc.Encode(vRunCase(c))
+		r := vRunCase(c)
+		for k := 1; k < c.Attempts && r.Outcome == "ok"; k++ {
+			vPerturb = true
+			r = vRunCase(c)
+		}
+		vPerturb = false
+		enc.Encode(r)
 	}
 }
 `
